@@ -477,6 +477,55 @@ theorem batch_dup_panics [BEq D] (a : Acc D) (proofs : List (List D)) (idxs : Li
         rwa [List.reverse_reverse] at this)]
       rfl
 
+theorem loop_none_of_oob (n : Nat) : ∀ (L : List (LeafMutation D)) (pks : List D) (m : DMap D),
+    (∃ mu ∈ L, n ≤ mu.leaf_index) → batchMutateLoop H n L pks m = none := by
+  intro L
+  induction L with
+  | nil => intro pks m h; obtain ⟨mu, hmu, _⟩ := h; simp at hmu
+  | cons mu rest ih =>
+    intro pks m h
+    rw [batchMutateLoop]
+    split
+    · rfl
+    · cases hc : batchClimb H mu.auth (leaf_index_to_node_index mu.leaf_index) mu.new_leaf
+          (m.insert (leaf_index_to_node_index mu.leaf_index) mu.new_leaf) with
+      | none => rfl
+      | some r =>
+        simp only [Option.bind_some]
+        by_cases hlt : mu.leaf_index < n
+        · rw [if_pos hlt]
+          cases hset : setAt? pks (leaf_index_to_mt_index_and_peak_index mu.leaf_index n).2 r.1 with
+          | none => rfl
+          | some pks' =>
+            simp only [Option.bind_some]
+            obtain ⟨mu', hmu', hoob⟩ := h
+            rcases List.mem_cons.mp hmu' with e | e
+            · subst e; omega
+            · exact ih pks' r.2 ⟨mu', e, hoob⟩
+        · rw [if_neg hlt]
+
+/-- **an out-of-range index panics**: a mutated leaf index `≥ leaf_count` (`assert!` of
+    `leaf_index_to_mt_index_and_peak_index`), a tracked leaf index `≥ leaf_count`, or lists of different lengths
+    (the two `assert!`s at the top of the routine) -/
+theorem batch_oob_panics [BEq D] (a : Acc D) (proofs : List (List D)) (idxs : List Nat) (muts : List (LeafMutation D))
+    (h : (∃ mu ∈ muts, a.leaf_count ≤ mu.leaf_index) ∨ (∃ t ∈ idxs, a.leaf_count ≤ t) ∨ proofs.length ≠ idxs.length) :
+    batch_mutate_leaf_and_update_mps H a proofs idxs muts = none := by
+  unfold batch_mutate_leaf_and_update_mps
+  split
+  · rfl
+  · rename_i hlen
+    split
+    · rfl
+    · rename_i hall
+      rcases h with ⟨mu, hmu, hoob⟩ | ⟨t, ht, hoob⟩ | hne
+      · rw [loop_none_of_oob H a.leaf_count muts.reverse a.peaks DMap.empty ⟨mu, List.mem_reverse.mpr hmu, hoob⟩]
+        rfl
+      · exfalso
+        apply hall
+        simp only [Bool.not_eq_true', List.all_eq_false]
+        exact ⟨t, ht, by simpa using hoob⟩
+      · exact absurd hne hlen
+
 end Dup
 
 /-! ### histories with batch-mutation steps -/
